@@ -122,7 +122,14 @@ func VerifH_C13_changeOne() { c13Run(1, 1, vParam("maxHist", 3)) }
 // VerifH_C13_changeOrder: several changed elements (order, one action each), short histories.
 func VerifH_C13_changeOrder() { c13Run(0, vParam("maxElems", 2), 1) }
 
-func c13Run(minElems, maxElems, maxHist int) {
+// VerifH_C13_sameElementTwice: the same element (one id, one kind) in two slots of one
+// change (modify/delete in any combination, any versions), one shared history: each
+// action is paired with the predecessor of its own version.
+func VerifH_C13_sameElementTwice() { c13RunSame(2, 2, vParam("maxHist", 2), true) }
+
+func c13Run(minElems, maxElems, maxHist int) { c13RunSame(minElems, maxElems, maxHist, false) }
+
+func c13RunSame(minElems, maxElems, maxHist int, same bool) {
 	ne := vRange("elements", minElems, maxElems)
 	ignore := vRange("ignoreMissing", 0, 1) == 1
 	ds := &c13DS{}
@@ -131,10 +138,17 @@ func c13Run(minElems, maxElems, maxHist int) {
 		e := &c13Elem{action: vRange("action", 0, 2), kind: vRange("kind", 0, 2), id: int64(i + 1), version: vInt("version")}
 		vAssume(e.version >= 0) // version numbers are non-negative
 		vis := vBool("visibleIn") // whatever the caller left in Visible must not matter
-		if e.action > 0 {
+		if same {
+			vAssume(e.action > 0)
+		}
+		if same && i > 0 {
+			f := ds.elems[0]
+			e.id, e.kind, e.outcome = f.id, f.kind, f.outcome
+			e.hist, e.hn, e.hw, e.hr = f.hist, f.hn, f.hw, f.hr
+		} else if e.action > 0 {
 			e.outcome = vRange("outcome", 0, 1+maxHist)
 		}
-		for j := 0; j < e.outcome-1; j++ {
+		for j := 0; j < e.outcome-1 && !(same && i > 0); j++ {
 			hv := vInt("hversion")
 			vAssume(hv >= 0)
 			e.hist = append(e.hist, hv)
